@@ -170,6 +170,49 @@ def _simple(e):
     return isinstance(e, (ast.Name, ast.Constant)) or (isinstance(e, ast.Attribute) and _simple(e.value))
 
 
+def _strip_validated_memo(fn):
+    """`e = T.get(k)` / `if e is not None and e[0] == x: return e[1]` / `v = f(x)` / `T[k] = (x, v)` / `return v`  ->  `v = f(x)` / `return v`.
+    The entry is reused only when the remembered copy of x equals the current x, and every entry is written as (x, f(x)): given that (the
+    MEMO rule checks the key on the definition), the function returns f(x).  None when the body is not exactly this shape."""
+    import copy
+    body = [s for s in fn.body if not (isinstance(s, ast.Expr) and isinstance(s.value, ast.Constant) and isinstance(s.value.value, str))]
+    if len(body) != 5:
+        return None
+    s1, s2, s3, s4, s5 = body
+    params = {a.arg for a in fn.args.args}
+    if not (isinstance(s1, ast.Assign) and len(s1.targets) == 1 and isinstance(s1.targets[0], ast.Name)):
+        return None
+    e = s1.targets[0].id
+    v1 = s1.value
+    if isinstance(v1, ast.Call) and isinstance(v1.func, ast.Attribute) and v1.func.attr == "get" and len(v1.args) == 1:
+        table, key = ast.unparse(v1.func.value), ast.unparse(v1.args[0])
+    else:
+        return None
+    if not (isinstance(s2, ast.If) and not s2.orelse and len(s2.body) == 1 and isinstance(s2.body[0], ast.Return) and isinstance(s2.body[0].value, ast.Subscript)
+            and isinstance(s2.body[0].value.value, ast.Name) and s2.body[0].value.value.id == e):
+        return None
+    compared = set()
+    for x in ast.walk(s2.test):
+        if isinstance(x, ast.Compare) and len(x.ops) == 1 and isinstance(x.ops[0], ast.Eq):
+            for a_, b_ in ((x.left, x.comparators[0]), (x.comparators[0], x.left)):
+                if isinstance(a_, ast.Subscript) and isinstance(a_.value, ast.Name) and a_.value.id == e and isinstance(b_, ast.Name) and b_.id in params:
+                    compared.add(b_.id)
+    if not compared:
+        return None
+    if not (isinstance(s3, ast.Assign) and len(s3.targets) == 1 and isinstance(s3.targets[0], ast.Name) and not any(isinstance(x, ast.Name) and x.id == e for x in ast.walk(s3.value))):
+        return None
+    v = s3.targets[0].id
+    if not (isinstance(s4, ast.Assign) and len(s4.targets) == 1 and isinstance(s4.targets[0], ast.Subscript) and ast.unparse(s4.targets[0].value) == table
+            and ast.unparse(s4.targets[0].slice) == key and isinstance(s4.value, ast.Tuple)
+            and {x.id for x in s4.value.elts if isinstance(x, ast.Name)} >= compared | {v}):
+        return None
+    if not (isinstance(s5, ast.Return) and isinstance(s5.value, ast.Name) and s5.value.id == v):
+        return None
+    out = copy.deepcopy(fn)
+    out.body = [copy.deepcopy(s3), copy.deepcopy(s5)]
+    return out
+
+
 class Inliner:
     def __init__(self, module_tree, modname, ref_names):
         self.tree, self.modname, self.ref = module_tree, modname, ref_names
@@ -182,6 +225,12 @@ class Inliner:
                     if isinstance(b, ast.FunctionDef):
                         self.funcs[st.name + "." + b.name] = (b, st.name)
         self.new = {q for q in self.funcs if q not in ref_names}
+        # a new helper that is a validated read-through memo is inlined as the computation it memoises; the definition itself stays in the
+        # module as written, where the MEMO rule decides whether the memo is keyed on everything it depends on
+        for q in list(self.new):
+            pure = _strip_validated_memo(self.funcs[q][0])
+            if pure is not None:
+                self.funcs[q] = (pure, self.funcs[q][1])
         self.counter = 0
         self.inlined = []  # (caller qualname, callee qualname)
 
